@@ -826,7 +826,7 @@ var w3Table = map[string]w3Fn{
 			vals = append(vals, new(big.Int).Set(g.ntFactor), new(big.Int).Mul(g.ntFactor, big.NewInt(12345)))
 		}
 		v := vals[g.rg.Intn(len(vals))]
-		pf := aliceTranscriptForced(pk, c, g.NT, g.h1, g.h2, m, rr, alpha, map[string]*big.Int{which: v})
+		pf := aliceTranscriptForced(tss.S256(), pk, c, g.NT, g.h1, g.h2, m, rr, alpha, map[string]*big.Int{which: v})
 		ok := pf.Verify(tss.S256(), pk, g.NT, g.h1, g.h2, c)
 		if ok {
 			r.Fail("W3:accepted:mta.RangeProofAlice.Verify:forced-"+which, "a range proof with %s forced to %s was accepted", which, v)
